@@ -8,6 +8,7 @@
 //!       2 machinery error (never a verdict).
 
 mod bind;
+mod draws;
 mod props;
 mod refchess;
 mod report;
